@@ -520,7 +520,7 @@ fn shared_env_job(ctx: &Ctx, job: usize, rounds: u64) -> Stats {
     cfg.max_fix_depth = 1;
     // references to definitions nobody made are part of the language (they read as false)
     cfg.allow_ref = true;
-    const REF_TEXTS: [&str; 6] = ["{r}", "false | {r}", "exists va # {r}", "gfp X # {r}", "{r} ^ {s}", "if va then {r} else {r}"];
+    const REF_TEXTS: [&str; 10] = ["{r}", "false | {r}", "exists va # {r}", "gfp X # {r}", "{r} ^ {s}", "if va then {r} else {r}", "X & (lfp X # va | X)", "gfp Y # (X | (Y & (lfp X # va | X)))", "(nu X # X & vb) | X", "X ^ (mu X # (exists X # X & va) | vc)"];
     for round in 0..rounds {
         let ordering: Vec<NamedSymbol> = {
             let mut ids: Vec<usize> = (0..names.len()).collect();
@@ -545,6 +545,7 @@ fn shared_env_job(ctx: &Ctx, job: usize, rounds: u64) -> Stats {
             };
             // every fourth evaluation spells the variables with the other names
             let other_names = rng.chance(1, 4);
+            let repeats = rng.usize(3);
             let used = if other_names { rename(&text) } else { text.clone() };
             let Ok(ast) = refsyn::parse_text(&text) else { continue };
             let Ok((rnames, want)) = refsem::eval_formula(&ast) else {
@@ -558,7 +559,12 @@ fn shared_env_job(ctx: &Ctx, job: usize, rounds: u64) -> Stats {
             util::budget(20_000_000, 100_000);
             let r = guarded(|| {
                 let pf = ParsedFormula::new_with_env(Rc::clone(&env), &mut BufReader::new(used.as_bytes()), Some(ordering.clone()))?;
-                Ok::<_, std::io::Error>(pf.eval())
+                // the same parsed formula evaluated once, twice or three times: the last answer counts
+                let mut d = pf.eval();
+                for _ in 0..repeats {
+                    d = pf.eval();
+                }
+                Ok::<_, std::io::Error>(d)
             });
             let d = match r {
                 Ok(Ok(d)) => d,
